@@ -3062,6 +3062,29 @@ impl QueryJob {
                                     }
                                 }
 
+                                // Validate the insert half against declared schemas before
+                                // anything is changed (same check as the Insert statement):
+                                // an update must not store tuples an insert would reject.
+                                let mut by_relation: Vec<(String, Vec<Tuple>)> = Vec::new();
+                                for (relation, tuple) in &insert_tuples {
+                                    match by_relation.iter_mut().find(|(r, _)| r == relation) {
+                                        Some((_, tuples)) => tuples.push(tuple.clone()),
+                                        None => by_relation
+                                            .push((relation.clone(), vec![tuple.clone()])),
+                                    }
+                                }
+                                let rejection = by_relation.iter().find_map(|(relation, tuples)| {
+                                    storage
+                                        .validate_tuples_in(&kg_name, relation, tuples)
+                                        .err()
+                                        .map(|e| format!("Update rejected for '{relation}': {e}"))
+                                });
+                                if let Some(msg) = rejection {
+                                    messages.push(msg);
+                                    current_stmt.clear();
+                                    continue;
+                                }
+
                                 for (relation, tuple) in delete_tuples {
                                     let count = storage
                                         .delete_tuples_from(&kg_name, &relation, vec![tuple])
